@@ -139,6 +139,7 @@ func e9RunSeq(r *Res, seq, variant string, depth int, stepped bool, palette int,
 	firstNew := fB
 	// window of parent contents / filters since the last barrier (unstepped)
 	rootStates := [][]metav1Object{}
+	var winEvents []evrec // events published at the root since the last barrier
 	filters := []*kit.Term{cur}
 	noteRoot := func() {
 		l, _ := g.root.Cache().List()
@@ -210,6 +211,28 @@ func e9RunSeq(r *Res, seq, variant string, depth int, stepped bool, palette int,
 							}
 						}
 						nd.filter = saved
+						staleExplained := false
+						if !match {
+							// Is the read one of the admissible contents with in-flight events
+							// OLDER than the sync applied on top of it?  (a delete of k older
+							// than the synced k: k missing; a create/update of k older than
+							// the synced state: an old version of k present)
+							for _, rs := range rootStates {
+								for _, f := range filters {
+									nd.filter = f
+									if staleInflightExplains(expectContent(n, rs), snap, winEvents) {
+										staleExplained = true
+									}
+								}
+							}
+							nd.filter = saved
+						}
+						if staleExplained {
+							r.V("C08", "stale-inflight-event-after-sync", "%s: the cache read made when Ready() of %s fired returned %v: the synced content with an in-flight parent event OLDER than the sync applied on top of it (events in window: %s)", label(i), n, snap, tailEvents(winEvents, 8))
+							r.Add("stale-inflight-observations", 1)
+							watchers[n] = nil
+							continue
+						}
 						if !match {
 							r.V("C08", "read-at-readiness-not-synced", "%s: the cache read made when Ready() of %s fired returned %v; expected the filtered parent content (parent states in window: %d, last %v)", label(i), n, snap, len(rootStates), kit.SnapOf(rootStates[len(rootStates)-1]))
 							ok = false
@@ -224,6 +247,7 @@ func e9RunSeq(r *Res, seq, variant string, depth int, stepped bool, palette int,
 			}
 		}
 		rootStates = rootStates[:0]
+		winEvents = winEvents[:0]
 		noteRoot()
 		filters = []*kit.Term{cur}
 		return ok
@@ -259,9 +283,13 @@ func e9RunSeq(r *Res, seq, variant string, depth int, stepped bool, palette int,
 			filters = append(filters, nf)
 		case 'V':
 			if rootReady {
-				if _, err := g.mutate(rng, u); err != nil {
+				evts, err := g.mutate(rng, u)
+				if err != nil {
 					r.V("C08", "publish-error", "%s: %v", label(i), err)
 					return false
+				}
+				for _, e := range evts {
+					winEvents = append(winEvents, evrec{Type: e.Type(), Key: kit.Key(e.Resource()), RV: e.Resource().GetResourceVersion()})
 				}
 			} else {
 				g.root.Cache().Update(newEv(kcacheUpdate, kit.Pod(u.nss[rng.Intn(2)], u.names[rng.Intn(3)], strconv.Itoa(g.nextRV), u.labels[rng.Intn(len(u.labels))])))
@@ -311,6 +339,109 @@ func e9Case(variant string, depth int, stepped bool, palette int, seqs []string,
 			r.Add("sequences", n)
 			r.Sample = map[string]interface{}{"variant": variant, "depth": depth, "stepped": stepped, "sequences": []string{seqs[0], seqs[len(seqs)/2], seqs[len(seqs)-1]}}
 		}}
+}
+
+// staleInflightExplains: does snap equal want except for keys whose difference
+// is the effect of a window event that is older than want's entry for that key?
+func staleInflightExplains(want, snap kit.Snap, win []evrec) bool {
+	differs := false
+	keys := map[string]bool{}
+	for k := range want {
+		keys[k] = true
+	}
+	for k := range snap {
+		keys[k] = true
+	}
+	for k := range keys {
+		wv, wh := want[k]
+		sv, sh := snap[k]
+		if wh == sh && wv == sv {
+			continue
+		}
+		differs = true
+		ok := false
+		for _, e := range win {
+			if e.Key != k {
+				continue
+			}
+			switch {
+			case !sh && wh && e.Type == kcacheDelete && kit.Atoi(e.RV) < kit.Atoi(wv):
+				ok = true // stale delete removed the synced (newer) object
+			case sh && e.Type != kcacheDelete && e.RV == sv && (!wh || kit.Atoi(sv) < kit.Atoi(wv)):
+				ok = true // stale create/update resurrected / regressed the key
+			}
+		}
+		if !ok {
+			return false
+		}
+	}
+	return differs
+}
+
+// e9StaleCase: directed schedule for the known finding D7: a filtered node that
+// is parked inside Refilter while its parent deletes and re-creates an object
+// syncs the newer content and then applies the buffered, OLDER delete.
+func e9StaleCase(seed uint64, n int, variant string) Case {
+	id := fmt.Sprintf("E9/stale-inflight/%s/%d/%d", variant, seed, n)
+	return Case{ID: id, Desc: map[string]interface{}{"what": "directed: node parked in Refilter while the parent deletes and re-creates an object", "variant": variant, "attempts": 25}, Bubble: true, Run: func(r *Res) {
+		for attempt := 0; attempt < 25; attempt++ {
+			core := kit.NewCore(&kit.Plan{Seed: kit.Mix(seed, uint64(n*100+attempt)), PYield: 100, Targets: map[string]time.Duration{"refiltering...": 300 * time.Microsecond}})
+			g := newRootRig(core, nil)
+			for i, nm := range []string{"a", "b", "c"} {
+				g.root.Cache().Update(newEv(kcacheUpdate, kit.Pod("n0", nm, strconv.Itoa(i+1), map[string]string{"l": "x"})))
+			}
+			g.nextRV = 4
+			g.root.MakeReady()
+			t := newTree(g.root.Publisher())
+			mid, err := t.addChild(t.root, "clonewf", kit.TNull(), true)
+			if err != nil {
+				r.Inc(err.Error())
+				return
+			}
+			nd, err := t.addChild(mid, variant, kit.TAll(), true)
+			if err != nil {
+				r.Inc(err.Error())
+				return
+			}
+			g.barrier()
+			w := watchReady(nd.cc)
+			nd.refilt(kit.TNull()) // the node is now parked at "refiltering..."
+			nd.filter = kit.TNull()
+			var win []evrec
+			for _, step := range []struct {
+				typ kcache.EventType
+				rv  string
+			}{{kcacheDelete, "4"}, {kcacheUpdate, "5"}} {
+				evts, _ := g.apply(step.typ, kit.Pod("n0", "a", step.rv, map[string]string{"l": "x"}))
+				for _, e := range evts {
+					win = append(win, evrec{Type: e.Type(), Key: kit.Key(e.Resource()), RV: e.Resource().GetResourceVersion()})
+				}
+			}
+			g.barrier()
+			fired, snap, _ := w.get()
+			close(w.stop)
+			<-w.done
+			want := kit.Snap{"n0/a": "5", "n0/b": "2", "n0/c": "3"}
+			r.Add("directed-stale-inflight-attempts", 1)
+			switch {
+			case !fired:
+				r.V("C08", "ready-state-wrong", "directed case: node with ready parent and supplied filter not ready")
+			case snap.Equal(want):
+			case staleInflightExplains(want, snap, win):
+				r.V("C08", "stale-inflight-event-after-sync", "directed case (%s below a clone, attempt %d): parked inside Refilter while the parent deleted n0/a@4 and re-created it @5; the read made when Ready() fired returned %v instead of %v: the buffered OLDER delete was applied after the sync", variant, attempt, snap, want)
+				r.Add("stale-inflight-observations", 1)
+			default:
+				r.V("C08", "read-at-readiness-not-synced", "directed case: read at readiness returned %v, expected %v", snap, want)
+			}
+			final, _ := cacheSnap(nd.cc.Cache())
+			if !final.Equal(want) {
+				r.V("C06", "filtered-cache-mismatch", "directed case: at quiescence the node holds %v, parent %v", final, want)
+			}
+			g.stop(r, "C12")
+		}
+		r.Key(id)
+		r.Sample = map[string]interface{}{"variant": variant, "attempts": 25}
+	}}
 }
 
 // e9CtlCase: Ready() of a controller closes only after the first list has been
@@ -402,12 +533,17 @@ func e9CtlCase(seed uint64, n int) Case {
 					ok = false
 				}
 				if !has {
-					// may only be missing if the server deleted it or relabelled it later
-					ok = ok && (!srv.Has(splitKey(k)) || !F.Eval(currentObj(srv, k)))
+					// may only be missing if a LATER server event deleted it or relabelled
+					// it out of the filter (the watch may already have delivered that)
+					later := false
+					for _, e := range srv.LogCopy() {
+						m, _ := e.Obj.(metav1Object)
+						if e.RV > lists[0].RV && kit.Key(m) == k && (e.Type == "DELETED" || !F.Eval(m)) {
+							later = true
+						}
+					}
+					ok = ok && later
 				}
-			}
-			if len(snap) == 0 && len(want) > 0 && F.Accepted(srv.Objects()).Equal(kit.Snap{}) == false {
-				ok = false
 			}
 			r.Add("content-at-readiness-checks", 1)
 			if !ok {
@@ -470,6 +606,9 @@ func init() {
 		var cases []Case
 		for i := 0; i < tierPick(tier, 120, 3000); i++ {
 			cases = append(cases, e9CtlCase(seed, i))
+		}
+		for i := 0; i < tierPick(tier, 4, 40); i++ {
+			cases = append(cases, e9StaleCase(seed, i, []string{"subff", "cloneff"}[i%2]))
 		}
 		maxLen := tierPick(tier, 5, 6)
 		seqs := e9Sequences(maxLen)
